@@ -90,6 +90,8 @@ def main():
         failures.append(core.Failure("correspondence", "harness of " + a.prop, traceback.format_exc()))
     finally:
         drv.close()
+        from vcheck import gen as _gen
+        _gen.use(None)
 
     # known findings listed for this property are replayed on every run
     nviol = 0
